@@ -241,4 +241,12 @@ c.ensures('headers-kept-and-typed', "implies(packets is not None, result['header
 c.ensures('body-is-the-payload', "implies(packets is not None and jsonp_index is None, "
           "result['response'] == payload_text(packets, len(packets)).encode('utf-8'))",
           props=['C03', 'C02'])
-c.modifies('Packet.encode_cache', 'Payload.packets')
+c.modifies('Packet.encode_cache', 'new Payload.packets')
+
+c = REG.contract('base_server.BaseServer._generate_sid_cookie', props=['C11'])
+c.param('self', Ref('BaseServer')).param('sid', STR)
+c.param('attributes', [Ty('rec', ('SameSite', STR), ('name', STR), ('path', STR))])
+c.returns(STR)
+c.ensures('carries-sid-and-attributes', 'result == cookie_value(sid, attributes)')
+c.note('only the plain-string cookie configuration (name, path=/, SameSite=Lax) is under '
+       'contract; dict configurations with boolean/callable attributes are not modelled')
